@@ -496,6 +496,7 @@ fn one_symbol<const CELLS: usize, const PROPS: usize, const UPDATE: bool>() {
 //@ bound: ONE symbol of process_next_inner(update=true) from every valid state (state<12, reps 32-bit, any window length/dict/history, any coder code), any 50 decision bits, symbolic (lc,lp,pb) with lc+lp<=4 (12288-cell table); decode_bit/get_bit replaced by the bit oracle
 #[cfg_attr(kani, kani::proof)]
 #[cfg_attr(kani, kani::stub(std::fmt::format, crate::verif_common::stub_format))]
+#[cfg_attr(kani, kani::stub(std::io::Error::is_interrupted, crate::verif_common::stub_not_interrupted))]
 #[cfg_attr(kani, kani::stub(crate::decode::rangecoder::RangeDecoder::decode_bit, crate::decode::rangecoder::verif_h::oracle_decode_bit))]
 #[cfg_attr(kani, kani::stub(crate::decode::rangecoder::RangeDecoder::get_bit, crate::decode::rangecoder::verif_h::oracle_get_bit))]
 pub fn sym_conformance_symprops() {
@@ -506,6 +507,7 @@ pub fn sym_conformance_symprops() {
 //@ bound: ONE symbol, update=true, lc=3 lp=0 pb=2 (6144 cells), every valid state, any 50 decision bits
 #[cfg_attr(kani, kani::proof)]
 #[cfg_attr(kani, kani::stub(std::fmt::format, crate::verif_common::stub_format))]
+#[cfg_attr(kani, kani::stub(std::io::Error::is_interrupted, crate::verif_common::stub_not_interrupted))]
 #[cfg_attr(kani, kani::stub(crate::decode::rangecoder::RangeDecoder::decode_bit, crate::decode::rangecoder::verif_h::oracle_decode_bit))]
 #[cfg_attr(kani, kani::stub(crate::decode::rangecoder::RangeDecoder::get_bit, crate::decode::rangecoder::verif_h::oracle_get_bit))]
 pub fn sym_conformance_lc3_lp0_pb2() {
@@ -516,6 +518,7 @@ pub fn sym_conformance_lc3_lp0_pb2() {
 //@ bound: ONE symbol of process_next_inner(update=false) (the streaming dry run) from every valid state, lc=0 lp=0 pb=0..: symbolic props lc+lp<=4
 #[cfg_attr(kani, kani::proof)]
 #[cfg_attr(kani, kani::stub(std::fmt::format, crate::verif_common::stub_format))]
+#[cfg_attr(kani, kani::stub(std::io::Error::is_interrupted, crate::verif_common::stub_not_interrupted))]
 #[cfg_attr(kani, kani::stub(crate::decode::rangecoder::RangeDecoder::decode_bit, crate::decode::rangecoder::verif_h::oracle_decode_bit))]
 #[cfg_attr(kani, kani::stub(crate::decode::rangecoder::RangeDecoder::get_bit, crate::decode::rangecoder::verif_h::oracle_get_bit))]
 pub fn sym_dry_run_symprops() {
@@ -760,6 +763,7 @@ fn partial_step<const P: usize, const R: usize, const L1: usize, const L2: usize
 //@ bound: one process_stream call: carry 0 bytes, reader 6 bytes, symbol lengths 5,20,1(,20); contents/range/code symbolic; abstract symbols
 #[cfg_attr(kani, kani::proof)]
 #[cfg_attr(kani, kani::stub(std::fmt::format, crate::verif_common::stub_format))]
+#[cfg_attr(kani, kani::stub(std::io::Error::is_interrupted, crate::verif_common::stub_not_interrupted))]
 #[cfg_attr(kani, kani::stub(crate::decode::lzma::DecoderState::process_next_inner, crate::decode::lzma::verif_h::abs_symbol))]
 pub fn partial_p0_r6_l5_20_1() {
     partial_step::<0, 6, 5, 20, 1>()
@@ -769,6 +773,7 @@ pub fn partial_p0_r6_l5_20_1() {
 //@ bound: one process_stream call: carry 0 bytes, reader 5 bytes, symbol lengths 5,20,1(,20); contents/range/code symbolic; abstract symbols
 #[cfg_attr(kani, kani::proof)]
 #[cfg_attr(kani, kani::stub(std::fmt::format, crate::verif_common::stub_format))]
+#[cfg_attr(kani, kani::stub(std::io::Error::is_interrupted, crate::verif_common::stub_not_interrupted))]
 #[cfg_attr(kani, kani::stub(crate::decode::lzma::DecoderState::process_next_inner, crate::decode::lzma::verif_h::abs_symbol))]
 pub fn partial_p0_r5_l5_20_1() {
     partial_step::<0, 5, 5, 20, 1>()
@@ -778,6 +783,7 @@ pub fn partial_p0_r5_l5_20_1() {
 //@ bound: one process_stream call: carry 0 bytes, reader 4 bytes, symbol lengths 5,20,1(,20); contents/range/code symbolic; abstract symbols
 #[cfg_attr(kani, kani::proof)]
 #[cfg_attr(kani, kani::stub(std::fmt::format, crate::verif_common::stub_format))]
+#[cfg_attr(kani, kani::stub(std::io::Error::is_interrupted, crate::verif_common::stub_not_interrupted))]
 #[cfg_attr(kani, kani::stub(crate::decode::lzma::DecoderState::process_next_inner, crate::decode::lzma::verif_h::abs_symbol))]
 pub fn partial_p0_r4_l5_20_1() {
     partial_step::<0, 4, 5, 20, 1>()
@@ -787,6 +793,7 @@ pub fn partial_p0_r4_l5_20_1() {
 //@ bound: one process_stream call: carry 3 bytes, reader 6 bytes, symbol lengths 5,20,1(,20); contents/range/code symbolic; abstract symbols
 #[cfg_attr(kani, kani::proof)]
 #[cfg_attr(kani, kani::stub(std::fmt::format, crate::verif_common::stub_format))]
+#[cfg_attr(kani, kani::stub(std::io::Error::is_interrupted, crate::verif_common::stub_not_interrupted))]
 #[cfg_attr(kani, kani::stub(crate::decode::lzma::DecoderState::process_next_inner, crate::decode::lzma::verif_h::abs_symbol))]
 pub fn partial_p3_r6_l5_20_1() {
     partial_step::<3, 6, 5, 20, 1>()
@@ -796,6 +803,7 @@ pub fn partial_p3_r6_l5_20_1() {
 //@ bound: one process_stream call: carry 19 bytes, reader 2 bytes, symbol lengths 20,3,1(,20); contents/range/code symbolic; abstract symbols
 #[cfg_attr(kani, kani::proof)]
 #[cfg_attr(kani, kani::stub(std::fmt::format, crate::verif_common::stub_format))]
+#[cfg_attr(kani, kani::stub(std::io::Error::is_interrupted, crate::verif_common::stub_not_interrupted))]
 #[cfg_attr(kani, kani::stub(crate::decode::lzma::DecoderState::process_next_inner, crate::decode::lzma::verif_h::abs_symbol))]
 pub fn partial_p19_r2_l20_3_1() {
     partial_step::<19, 2, 20, 3, 1>()
@@ -805,6 +813,7 @@ pub fn partial_p19_r2_l20_3_1() {
 //@ bound: one process_stream call: carry 19 bytes, reader 1 bytes, symbol lengths 20,3,1(,20); contents/range/code symbolic; abstract symbols
 #[cfg_attr(kani, kani::proof)]
 #[cfg_attr(kani, kani::stub(std::fmt::format, crate::verif_common::stub_format))]
+#[cfg_attr(kani, kani::stub(std::io::Error::is_interrupted, crate::verif_common::stub_not_interrupted))]
 #[cfg_attr(kani, kani::stub(crate::decode::lzma::DecoderState::process_next_inner, crate::decode::lzma::verif_h::abs_symbol))]
 pub fn partial_p19_r1_l20_3_1() {
     partial_step::<19, 1, 20, 3, 1>()
@@ -814,6 +823,7 @@ pub fn partial_p19_r1_l20_3_1() {
 //@ bound: one process_stream call: carry 19 bytes, reader 0 bytes, symbol lengths 20,3,1(,20); contents/range/code symbolic; abstract symbols
 #[cfg_attr(kani, kani::proof)]
 #[cfg_attr(kani, kani::stub(std::fmt::format, crate::verif_common::stub_format))]
+#[cfg_attr(kani, kani::stub(std::io::Error::is_interrupted, crate::verif_common::stub_not_interrupted))]
 #[cfg_attr(kani, kani::stub(crate::decode::lzma::DecoderState::process_next_inner, crate::decode::lzma::verif_h::abs_symbol))]
 pub fn partial_p19_r0_l20_3_1() {
     partial_step::<19, 0, 20, 3, 1>()
@@ -823,6 +833,7 @@ pub fn partial_p19_r0_l20_3_1() {
 //@ bound: one process_stream call: carry 1 bytes, reader 8 bytes, symbol lengths 9,1,1(,20); contents/range/code symbolic; abstract symbols
 #[cfg_attr(kani, kani::proof)]
 #[cfg_attr(kani, kani::stub(std::fmt::format, crate::verif_common::stub_format))]
+#[cfg_attr(kani, kani::stub(std::io::Error::is_interrupted, crate::verif_common::stub_not_interrupted))]
 #[cfg_attr(kani, kani::stub(crate::decode::lzma::DecoderState::process_next_inner, crate::decode::lzma::verif_h::abs_symbol))]
 pub fn partial_p1_r8_l9_1_1() {
     partial_step::<1, 8, 9, 1, 1>()
@@ -832,6 +843,7 @@ pub fn partial_p1_r8_l9_1_1() {
 //@ bound: one process_stream call: carry 1 bytes, reader 7 bytes, symbol lengths 9,1,1(,20); contents/range/code symbolic; abstract symbols
 #[cfg_attr(kani, kani::proof)]
 #[cfg_attr(kani, kani::stub(std::fmt::format, crate::verif_common::stub_format))]
+#[cfg_attr(kani, kani::stub(std::io::Error::is_interrupted, crate::verif_common::stub_not_interrupted))]
 #[cfg_attr(kani, kani::stub(crate::decode::lzma::DecoderState::process_next_inner, crate::decode::lzma::verif_h::abs_symbol))]
 pub fn partial_p1_r7_l9_1_1() {
     partial_step::<1, 7, 9, 1, 1>()
@@ -841,6 +853,7 @@ pub fn partial_p1_r7_l9_1_1() {
 //@ bound: one process_stream call: carry 0 bytes, reader 8 bytes, symbol lengths 20,1,1(,20); contents/range/code symbolic; abstract symbols
 #[cfg_attr(kani, kani::proof)]
 #[cfg_attr(kani, kani::stub(std::fmt::format, crate::verif_common::stub_format))]
+#[cfg_attr(kani, kani::stub(std::io::Error::is_interrupted, crate::verif_common::stub_not_interrupted))]
 #[cfg_attr(kani, kani::stub(crate::decode::lzma::DecoderState::process_next_inner, crate::decode::lzma::verif_h::abs_symbol))]
 pub fn partial_p0_r8_l20_1_1() {
     partial_step::<0, 8, 20, 1, 1>()
@@ -850,6 +863,7 @@ pub fn partial_p0_r8_l20_1_1() {
 //@ bound: one process_stream call: carry 10 bytes, reader 8 bytes, symbol lengths 20,1,1(,20); contents/range/code symbolic; abstract symbols
 #[cfg_attr(kani, kani::proof)]
 #[cfg_attr(kani, kani::stub(std::fmt::format, crate::verif_common::stub_format))]
+#[cfg_attr(kani, kani::stub(std::io::Error::is_interrupted, crate::verif_common::stub_not_interrupted))]
 #[cfg_attr(kani, kani::stub(crate::decode::lzma::DecoderState::process_next_inner, crate::decode::lzma::verif_h::abs_symbol))]
 pub fn partial_p10_r8_l20_1_1() {
     partial_step::<10, 8, 20, 1, 1>()
@@ -859,6 +873,7 @@ pub fn partial_p10_r8_l20_1_1() {
 //@ bound: one process_stream call: carry 12 bytes, reader 8 bytes, symbol lengths 20,1,1(,20); contents/range/code symbolic; abstract symbols
 #[cfg_attr(kani, kani::proof)]
 #[cfg_attr(kani, kani::stub(std::fmt::format, crate::verif_common::stub_format))]
+#[cfg_attr(kani, kani::stub(std::io::Error::is_interrupted, crate::verif_common::stub_not_interrupted))]
 #[cfg_attr(kani, kani::stub(crate::decode::lzma::DecoderState::process_next_inner, crate::decode::lzma::verif_h::abs_symbol))]
 pub fn partial_p12_r8_l20_1_1() {
     partial_step::<12, 8, 20, 1, 1>()
@@ -868,6 +883,7 @@ pub fn partial_p12_r8_l20_1_1() {
 //@ bound: one process_stream call: carry 11 bytes, reader 8 bytes, symbol lengths 20,1,1(,20); contents/range/code symbolic; abstract symbols
 #[cfg_attr(kani, kani::proof)]
 #[cfg_attr(kani, kani::stub(std::fmt::format, crate::verif_common::stub_format))]
+#[cfg_attr(kani, kani::stub(std::io::Error::is_interrupted, crate::verif_common::stub_not_interrupted))]
 #[cfg_attr(kani, kani::stub(crate::decode::lzma::DecoderState::process_next_inner, crate::decode::lzma::verif_h::abs_symbol))]
 pub fn partial_p11_r8_l20_1_1() {
     partial_step::<11, 8, 20, 1, 1>()
@@ -877,6 +893,7 @@ pub fn partial_p11_r8_l20_1_1() {
 //@ bound: one process_stream call: carry 0 bytes, reader 0 bytes, symbol lengths 1,1,1(,20); contents/range/code symbolic; abstract symbols
 #[cfg_attr(kani, kani::proof)]
 #[cfg_attr(kani, kani::stub(std::fmt::format, crate::verif_common::stub_format))]
+#[cfg_attr(kani, kani::stub(std::io::Error::is_interrupted, crate::verif_common::stub_not_interrupted))]
 #[cfg_attr(kani, kani::stub(crate::decode::lzma::DecoderState::process_next_inner, crate::decode::lzma::verif_h::abs_symbol))]
 pub fn partial_p0_r0_l1_1_1() {
     partial_step::<0, 0, 1, 1, 1>()
@@ -886,6 +903,7 @@ pub fn partial_p0_r0_l1_1_1() {
 //@ bound: one process_stream call: carry 5 bytes, reader 0 bytes, symbol lengths 6,1,1(,20); contents/range/code symbolic; abstract symbols
 #[cfg_attr(kani, kani::proof)]
 #[cfg_attr(kani, kani::stub(std::fmt::format, crate::verif_common::stub_format))]
+#[cfg_attr(kani, kani::stub(std::io::Error::is_interrupted, crate::verif_common::stub_not_interrupted))]
 #[cfg_attr(kani, kani::stub(crate::decode::lzma::DecoderState::process_next_inner, crate::decode::lzma::verif_h::abs_symbol))]
 pub fn partial_p5_r0_l6_1_1() {
     partial_step::<5, 0, 6, 1, 1>()
@@ -895,6 +913,7 @@ pub fn partial_p5_r0_l6_1_1() {
 //@ bound: one process_stream call: carry 5 bytes, reader 0 bytes, symbol lengths 5,1,1(,20); contents/range/code symbolic; abstract symbols
 #[cfg_attr(kani, kani::proof)]
 #[cfg_attr(kani, kani::stub(std::fmt::format, crate::verif_common::stub_format))]
+#[cfg_attr(kani, kani::stub(std::io::Error::is_interrupted, crate::verif_common::stub_not_interrupted))]
 #[cfg_attr(kani, kani::stub(crate::decode::lzma::DecoderState::process_next_inner, crate::decode::lzma::verif_h::abs_symbol))]
 pub fn partial_p5_r0_l5_1_1() {
     partial_step::<5, 0, 5, 1, 1>()
@@ -904,6 +923,7 @@ pub fn partial_p5_r0_l5_1_1() {
 //@ bound: one process_stream call: carry 2 bytes, reader 3 bytes, symbol lengths 1,1,1(,20); contents/range/code symbolic; abstract symbols
 #[cfg_attr(kani, kani::proof)]
 #[cfg_attr(kani, kani::stub(std::fmt::format, crate::verif_common::stub_format))]
+#[cfg_attr(kani, kani::stub(std::io::Error::is_interrupted, crate::verif_common::stub_not_interrupted))]
 #[cfg_attr(kani, kani::stub(crate::decode::lzma::DecoderState::process_next_inner, crate::decode::lzma::verif_h::abs_symbol))]
 pub fn partial_p2_r3_l1_1_1() {
     partial_step::<2, 3, 1, 1, 1>()
@@ -913,6 +933,7 @@ pub fn partial_p2_r3_l1_1_1() {
 //@ bound: one process_stream call: carry 0 bytes, reader 1 bytes, symbol lengths 1,1,1(,20); contents/range/code symbolic; abstract symbols
 #[cfg_attr(kani, kani::proof)]
 #[cfg_attr(kani, kani::stub(std::fmt::format, crate::verif_common::stub_format))]
+#[cfg_attr(kani, kani::stub(std::io::Error::is_interrupted, crate::verif_common::stub_not_interrupted))]
 #[cfg_attr(kani, kani::stub(crate::decode::lzma::DecoderState::process_next_inner, crate::decode::lzma::verif_h::abs_symbol))]
 pub fn partial_p0_r1_l1_1_1() {
     partial_step::<0, 1, 1, 1, 1>()
@@ -922,6 +943,7 @@ pub fn partial_p0_r1_l1_1_1() {
 //@ bound: one process_stream call: carry 0 bytes, reader 1 bytes, symbol lengths 2,1,1(,20); contents/range/code symbolic; abstract symbols
 #[cfg_attr(kani, kani::proof)]
 #[cfg_attr(kani, kani::stub(std::fmt::format, crate::verif_common::stub_format))]
+#[cfg_attr(kani, kani::stub(std::io::Error::is_interrupted, crate::verif_common::stub_not_interrupted))]
 #[cfg_attr(kani, kani::stub(crate::decode::lzma::DecoderState::process_next_inner, crate::decode::lzma::verif_h::abs_symbol))]
 pub fn partial_p0_r1_l2_1_1() {
     partial_step::<0, 1, 2, 1, 1>()
@@ -931,6 +953,7 @@ pub fn partial_p0_r1_l2_1_1() {
 //@ bound: one process_stream call: carry 19 bytes, reader 8 bytes, symbol lengths 20,7,1(,20); contents/range/code symbolic; abstract symbols
 #[cfg_attr(kani, kani::proof)]
 #[cfg_attr(kani, kani::stub(std::fmt::format, crate::verif_common::stub_format))]
+#[cfg_attr(kani, kani::stub(std::io::Error::is_interrupted, crate::verif_common::stub_not_interrupted))]
 #[cfg_attr(kani, kani::stub(crate::decode::lzma::DecoderState::process_next_inner, crate::decode::lzma::verif_h::abs_symbol))]
 pub fn partial_p19_r8_l20_7_1() {
     partial_step::<19, 8, 20, 7, 1>()
@@ -940,6 +963,7 @@ pub fn partial_p19_r8_l20_7_1() {
 //@ bound: one process_stream call: carry 19 bytes, reader 8 bytes, symbol lengths 19,8,1(,20); contents/range/code symbolic; abstract symbols
 #[cfg_attr(kani, kani::proof)]
 #[cfg_attr(kani, kani::stub(std::fmt::format, crate::verif_common::stub_format))]
+#[cfg_attr(kani, kani::stub(std::io::Error::is_interrupted, crate::verif_common::stub_not_interrupted))]
 #[cfg_attr(kani, kani::stub(crate::decode::lzma::DecoderState::process_next_inner, crate::decode::lzma::verif_h::abs_symbol))]
 pub fn partial_p19_r8_l19_8_1() {
     partial_step::<19, 8, 19, 8, 1>()
@@ -949,6 +973,7 @@ pub fn partial_p19_r8_l19_8_1() {
 //@ bound: one process_stream call: carry 18 bytes, reader 8 bytes, symbol lengths 20,6,2(,20); contents/range/code symbolic; abstract symbols
 #[cfg_attr(kani, kani::proof)]
 #[cfg_attr(kani, kani::stub(std::fmt::format, crate::verif_common::stub_format))]
+#[cfg_attr(kani, kani::stub(std::io::Error::is_interrupted, crate::verif_common::stub_not_interrupted))]
 #[cfg_attr(kani, kani::stub(crate::decode::lzma::DecoderState::process_next_inner, crate::decode::lzma::verif_h::abs_symbol))]
 pub fn partial_p18_r8_l20_6_2() {
     partial_step::<18, 8, 20, 6, 2>()
@@ -958,6 +983,7 @@ pub fn partial_p18_r8_l20_6_2() {
 //@ bound: one process_stream call: carry 7 bytes, reader 8 bytes, symbol lengths 2,19,1(,20); contents/range/code symbolic; abstract symbols
 #[cfg_attr(kani, kani::proof)]
 #[cfg_attr(kani, kani::stub(std::fmt::format, crate::verif_common::stub_format))]
+#[cfg_attr(kani, kani::stub(std::io::Error::is_interrupted, crate::verif_common::stub_not_interrupted))]
 #[cfg_attr(kani, kani::stub(crate::decode::lzma::DecoderState::process_next_inner, crate::decode::lzma::verif_h::abs_symbol))]
 pub fn partial_p7_r8_l2_19_1() {
     partial_step::<7, 8, 2, 19, 1>()
@@ -967,6 +993,7 @@ pub fn partial_p7_r8_l2_19_1() {
 //@ bound: one process_stream call: carry 0 bytes, reader 8 bytes, symbol lengths 3,3,3(,20); contents/range/code symbolic; abstract symbols
 #[cfg_attr(kani, kani::proof)]
 #[cfg_attr(kani, kani::stub(std::fmt::format, crate::verif_common::stub_format))]
+#[cfg_attr(kani, kani::stub(std::io::Error::is_interrupted, crate::verif_common::stub_not_interrupted))]
 #[cfg_attr(kani, kani::stub(crate::decode::lzma::DecoderState::process_next_inner, crate::decode::lzma::verif_h::abs_symbol))]
 pub fn partial_p0_r8_l3_3_3() {
     partial_step::<0, 8, 3, 3, 3>()
@@ -1036,6 +1063,7 @@ fn header_any<const OPT: usize, const AVAIL: usize>() {
 //@ bound: read_header(ReadFromHeader) on 14 symbolic bytes, all available
 #[cfg_attr(kani, kani::proof)]
 #[cfg_attr(kani, kani::stub(std::fmt::format, crate::verif_common::stub_format))]
+#[cfg_attr(kani, kani::stub(std::io::Error::is_interrupted, crate::verif_common::stub_not_interrupted))]
 pub fn header_from_header_full() {
     header_any::<0, 14>()
 }
@@ -1044,6 +1072,7 @@ pub fn header_from_header_full() {
 //@ bound: read_header(ReadHeaderButUseProvided(any)) on 14 symbolic bytes
 #[cfg_attr(kani, kani::proof)]
 #[cfg_attr(kani, kani::stub(std::fmt::format, crate::verif_common::stub_format))]
+#[cfg_attr(kani, kani::stub(std::io::Error::is_interrupted, crate::verif_common::stub_not_interrupted))]
 pub fn header_use_provided_13() {
     header_any::<1, 14>()
 }
@@ -1052,6 +1081,7 @@ pub fn header_use_provided_13() {
 //@ bound: read_header(UseProvided(any)) on 14 symbolic bytes (5-byte header)
 #[cfg_attr(kani, kani::proof)]
 #[cfg_attr(kani, kani::stub(std::fmt::format, crate::verif_common::stub_format))]
+#[cfg_attr(kani, kani::stub(std::io::Error::is_interrupted, crate::verif_common::stub_not_interrupted))]
 pub fn header_use_provided_5() {
     header_any::<2, 14>()
 }
@@ -1060,6 +1090,7 @@ pub fn header_use_provided_5() {
 //@ bound: read_header(ReadFromHeader) with only 12 of 13 bytes available
 #[cfg_attr(kani, kani::proof)]
 #[cfg_attr(kani, kani::stub(std::fmt::format, crate::verif_common::stub_format))]
+#[cfg_attr(kani, kani::stub(std::io::Error::is_interrupted, crate::verif_common::stub_not_interrupted))]
 pub fn header_truncated_12() {
     header_any::<0, 12>()
 }
@@ -1068,6 +1099,7 @@ pub fn header_truncated_12() {
 //@ bound: read_header(UseProvided) with only 3 of 5 bytes available
 #[cfg_attr(kani, kani::proof)]
 #[cfg_attr(kani, kani::stub(std::fmt::format, crate::verif_common::stub_format))]
+#[cfg_attr(kani, kani::stub(std::io::Error::is_interrupted, crate::verif_common::stub_not_interrupted))]
 pub fn header_truncated_3() {
     header_any::<2, 3>()
 }
@@ -1194,6 +1226,7 @@ fn finish_rules<const NS: usize, const K0: usize, const K1: usize, const K2: usi
 //@ bound: process(Finish): 4 abstract symbols kinds [0,0,0,0] (0 lit,1 marker,2 corrupt,3 three-byte) of 3 bytes, 0 trailing bytes, size Some(symbolic), symbolic code / initial length
 #[cfg_attr(kani, kani::proof)]
 #[cfg_attr(kani, kani::stub(std::fmt::format, crate::verif_common::stub_format))]
+#[cfg_attr(kani, kani::stub(std::io::Error::is_interrupted, crate::verif_common::stub_not_interrupted))]
 #[cfg_attr(kani, kani::stub(crate::decode::lzma::DecoderState::process_next_inner, crate::decode::lzma::verif_h::abs_symbol))]
 pub fn finish_sized_lit4_t0() {
     finish_rules::<4, 0, 0, 0, 0, 3, 0, true>()
@@ -1203,6 +1236,7 @@ pub fn finish_sized_lit4_t0() {
 //@ bound: process(Finish): 3 abstract symbols kinds [0,0,0,0] (0 lit,1 marker,2 corrupt,3 three-byte) of 3 bytes, 4 trailing bytes, size Some(symbolic), symbolic code / initial length
 #[cfg_attr(kani, kani::proof)]
 #[cfg_attr(kani, kani::stub(std::fmt::format, crate::verif_common::stub_format))]
+#[cfg_attr(kani, kani::stub(std::io::Error::is_interrupted, crate::verif_common::stub_not_interrupted))]
 #[cfg_attr(kani, kani::stub(crate::decode::lzma::DecoderState::process_next_inner, crate::decode::lzma::verif_h::abs_symbol))]
 pub fn finish_sized_lit3_t4() {
     finish_rules::<3, 0, 0, 0, 0, 3, 4, true>()
@@ -1212,6 +1246,7 @@ pub fn finish_sized_lit3_t4() {
 //@ bound: process(Finish): 3 abstract symbols kinds [0,0,1,0] (0 lit,1 marker,2 corrupt,3 three-byte) of 2 bytes, 0 trailing bytes, size Some(symbolic), symbolic code / initial length
 #[cfg_attr(kani, kani::proof)]
 #[cfg_attr(kani, kani::stub(std::fmt::format, crate::verif_common::stub_format))]
+#[cfg_attr(kani, kani::stub(std::io::Error::is_interrupted, crate::verif_common::stub_not_interrupted))]
 #[cfg_attr(kani, kani::stub(crate::decode::lzma::DecoderState::process_next_inner, crate::decode::lzma::verif_h::abs_symbol))]
 pub fn finish_sized_lit2_marker_t0() {
     finish_rules::<3, 0, 0, 1, 0, 2, 0, true>()
@@ -1221,6 +1256,7 @@ pub fn finish_sized_lit2_marker_t0() {
 //@ bound: process(Finish): 3 abstract symbols kinds [0,3,0,0] (0 lit,1 marker,2 corrupt,3 three-byte) of 2 bytes, 0 trailing bytes, size Some(symbolic), symbolic code / initial length
 #[cfg_attr(kani, kani::proof)]
 #[cfg_attr(kani, kani::stub(std::fmt::format, crate::verif_common::stub_format))]
+#[cfg_attr(kani, kani::stub(std::io::Error::is_interrupted, crate::verif_common::stub_not_interrupted))]
 #[cfg_attr(kani, kani::stub(crate::decode::lzma::DecoderState::process_next_inner, crate::decode::lzma::verif_h::abs_symbol))]
 pub fn finish_sized_wide_overshoot() {
     finish_rules::<3, 0, 3, 0, 0, 2, 0, true>()
@@ -1230,6 +1266,7 @@ pub fn finish_sized_wide_overshoot() {
 //@ bound: process(Finish): 3 abstract symbols kinds [0,2,0,0] (0 lit,1 marker,2 corrupt,3 three-byte) of 2 bytes, 0 trailing bytes, size Some(symbolic), symbolic code / initial length
 #[cfg_attr(kani, kani::proof)]
 #[cfg_attr(kani, kani::stub(std::fmt::format, crate::verif_common::stub_format))]
+#[cfg_attr(kani, kani::stub(std::io::Error::is_interrupted, crate::verif_common::stub_not_interrupted))]
 #[cfg_attr(kani, kani::stub(crate::decode::lzma::DecoderState::process_next_inner, crate::decode::lzma::verif_h::abs_symbol))]
 pub fn finish_sized_bad_symbol() {
     finish_rules::<3, 0, 2, 0, 0, 2, 0, true>()
@@ -1239,6 +1276,7 @@ pub fn finish_sized_bad_symbol() {
 //@ bound: process(Finish): 3 abstract symbols kinds [0,0,1,0] (0 lit,1 marker,2 corrupt,3 three-byte) of 3 bytes, 0 trailing bytes, size None, symbolic code / initial length
 #[cfg_attr(kani, kani::proof)]
 #[cfg_attr(kani, kani::stub(std::fmt::format, crate::verif_common::stub_format))]
+#[cfg_attr(kani, kani::stub(std::io::Error::is_interrupted, crate::verif_common::stub_not_interrupted))]
 #[cfg_attr(kani, kani::stub(crate::decode::lzma::DecoderState::process_next_inner, crate::decode::lzma::verif_h::abs_symbol))]
 pub fn finish_nosize_lit2_marker_t0() {
     finish_rules::<3, 0, 0, 1, 0, 3, 0, false>()
@@ -1248,6 +1286,7 @@ pub fn finish_nosize_lit2_marker_t0() {
 //@ bound: process(Finish): 3 abstract symbols kinds [0,0,1,0] (0 lit,1 marker,2 corrupt,3 three-byte) of 3 bytes, 1 trailing bytes, size None, symbolic code / initial length
 #[cfg_attr(kani, kani::proof)]
 #[cfg_attr(kani, kani::stub(std::fmt::format, crate::verif_common::stub_format))]
+#[cfg_attr(kani, kani::stub(std::io::Error::is_interrupted, crate::verif_common::stub_not_interrupted))]
 #[cfg_attr(kani, kani::stub(crate::decode::lzma::DecoderState::process_next_inner, crate::decode::lzma::verif_h::abs_symbol))]
 pub fn finish_nosize_lit2_marker_t1() {
     finish_rules::<3, 0, 0, 1, 0, 3, 1, false>()
@@ -1257,6 +1296,7 @@ pub fn finish_nosize_lit2_marker_t1() {
 //@ bound: process(Finish): 1 abstract symbols kinds [1,0,0,0] (0 lit,1 marker,2 corrupt,3 three-byte) of 5 bytes, 0 trailing bytes, size None, symbolic code / initial length
 #[cfg_attr(kani, kani::proof)]
 #[cfg_attr(kani, kani::stub(std::fmt::format, crate::verif_common::stub_format))]
+#[cfg_attr(kani, kani::stub(std::io::Error::is_interrupted, crate::verif_common::stub_not_interrupted))]
 #[cfg_attr(kani, kani::stub(crate::decode::lzma::DecoderState::process_next_inner, crate::decode::lzma::verif_h::abs_symbol))]
 pub fn finish_nosize_marker_first() {
     finish_rules::<1, 1, 0, 0, 0, 5, 0, false>()
@@ -1266,6 +1306,7 @@ pub fn finish_nosize_marker_first() {
 //@ bound: process(Finish): 3 abstract symbols kinds [0,0,0,0] (0 lit,1 marker,2 corrupt,3 three-byte) of 2 bytes, 0 trailing bytes, size None, symbolic code / initial length
 #[cfg_attr(kani, kani::proof)]
 #[cfg_attr(kani, kani::stub(std::fmt::format, crate::verif_common::stub_format))]
+#[cfg_attr(kani, kani::stub(std::io::Error::is_interrupted, crate::verif_common::stub_not_interrupted))]
 #[cfg_attr(kani, kani::stub(crate::decode::lzma::DecoderState::process_next_inner, crate::decode::lzma::verif_h::abs_symbol))]
 pub fn finish_nosize_lit3_nomarker() {
     finish_rules::<3, 0, 0, 0, 0, 2, 0, false>()
@@ -1275,6 +1316,7 @@ pub fn finish_nosize_lit3_nomarker() {
 //@ bound: process(Finish): 0 abstract symbols kinds [0,0,0,0] (0 lit,1 marker,2 corrupt,3 three-byte) of 1 bytes, 0 trailing bytes, size None, symbolic code / initial length
 #[cfg_attr(kani, kani::proof)]
 #[cfg_attr(kani, kani::stub(std::fmt::format, crate::verif_common::stub_format))]
+#[cfg_attr(kani, kani::stub(std::io::Error::is_interrupted, crate::verif_common::stub_not_interrupted))]
 #[cfg_attr(kani, kani::stub(crate::decode::lzma::DecoderState::process_next_inner, crate::decode::lzma::verif_h::abs_symbol))]
 pub fn finish_nosize_empty() {
     finish_rules::<0, 0, 0, 0, 0, 1, 0, false>()
@@ -1284,6 +1326,7 @@ pub fn finish_nosize_empty() {
 //@ bound: process(Finish): 0 abstract symbols kinds [0,0,0,0] (0 lit,1 marker,2 corrupt,3 three-byte) of 1 bytes, 0 trailing bytes, size Some(symbolic), symbolic code / initial length
 #[cfg_attr(kani, kani::proof)]
 #[cfg_attr(kani, kani::stub(std::fmt::format, crate::verif_common::stub_format))]
+#[cfg_attr(kani, kani::stub(std::io::Error::is_interrupted, crate::verif_common::stub_not_interrupted))]
 #[cfg_attr(kani, kani::stub(crate::decode::lzma::DecoderState::process_next_inner, crate::decode::lzma::verif_h::abs_symbol))]
 pub fn finish_sized_empty() {
     finish_rules::<0, 0, 0, 0, 0, 1, 0, true>()
@@ -1420,6 +1463,7 @@ fn reset_equiv<const MODE: usize, const A: usize, const LC: u32, const LP: u32, 
 //@ bound: DecoderState::new(p, size) for every p with lc+lp = 0 (any pb): every cell of every table inspected at a universally quantified index
 #[cfg_attr(kani, kani::proof)]
 #[cfg_attr(kani, kani::stub(std::fmt::format, crate::verif_common::stub_format))]
+#[cfg_attr(kani, kani::stub(std::io::Error::is_interrupted, crate::verif_common::stub_not_interrupted))]
 pub fn new_state_lclp0() {
     reset_equiv::<0, 0, 0, 0, 0>()
 }
@@ -1428,6 +1472,7 @@ pub fn new_state_lclp0() {
 //@ bound: reset_state(p) with lc+lp = 0 on a dirty lc+lp = 0 state (fill branch): any dirty cell, any state/rep, every cell inspected at a quantified index
 #[cfg_attr(kani, kani::proof)]
 #[cfg_attr(kani, kani::stub(std::fmt::format, crate::verif_common::stub_format))]
+#[cfg_attr(kani, kani::stub(std::io::Error::is_interrupted, crate::verif_common::stub_not_interrupted))]
 pub fn reset_state_fill_0_0() {
     reset_equiv::<1, 0, 0, 0, 768>()
 }
@@ -1436,6 +1481,7 @@ pub fn reset_state_fill_0_0() {
 //@ bound: reset_state(p) with lc=0 lp=1 on a dirty lc+lp = 0 state (reallocate branch)
 #[cfg_attr(kani, kani::proof)]
 #[cfg_attr(kani, kani::stub(std::fmt::format, crate::verif_common::stub_format))]
+#[cfg_attr(kani, kani::stub(std::io::Error::is_interrupted, crate::verif_common::stub_not_interrupted))]
 pub fn reset_state_realloc_0_1() {
     reset_equiv::<1, 0, 0, 1, 768>()
 }
@@ -1444,6 +1490,7 @@ pub fn reset_state_realloc_0_1() {
 //@ bound: reset_state(p) with lc+lp = 0 on a dirty lc+lp = 1 state (reallocate to a smaller table)
 #[cfg_attr(kani, kani::proof)]
 #[cfg_attr(kani, kani::stub(std::fmt::format, crate::verif_common::stub_format))]
+#[cfg_attr(kani, kani::stub(std::io::Error::is_interrupted, crate::verif_common::stub_not_interrupted))]
 pub fn reset_state_realloc_1_0() {
     reset_equiv::<1, 1, 0, 0, 1536>()
 }
@@ -1452,6 +1499,7 @@ pub fn reset_state_realloc_1_0() {
 //@ bound: reset_state(p) with lc+lp = 1 on a dirty lc+lp = 1 state (fill branch, 1536 cells)
 #[cfg_attr(kani, kani::proof)]
 #[cfg_attr(kani, kani::stub(std::fmt::format, crate::verif_common::stub_format))]
+#[cfg_attr(kani, kani::stub(std::io::Error::is_interrupted, crate::verif_common::stub_not_interrupted))]
 pub fn reset_state_fill_1_1() {
     reset_equiv::<1, 1, 1, 0, 1536>()
 }
